@@ -230,6 +230,35 @@ def statement_bounds(code, pos, lo, hi):
     return i, j
 
 
+
+KEY_OK = [
+    r"^$",                                                            # .sort() / .sort_unstable(): whole element
+    r"^\|&?\(&?([a-z_][a-z0-9_]*),_\)\|\*?\1(?:\.as_str\(\)|\.as_bytes\(\)|\.clone\(\))?$",   # |(k, _)| k / *k / k.as_str()
+    r"^\|&?([a-z_][a-z0-9_]*)\|\*?\1(?:\.as_str\(\)|\.as_bytes\(\)|\.clone\(\))?$",             # |k| k
+    r"^\|([a-z_]+),([a-z_]+)\|\1\.0\.cmp\(&?\2\.0\)$",                                       # sort_by(|a, b| a.0.cmp(b.0))
+]
+KEY_REVIEWED = r"^\|&?\(&?([a-z_][a-z0-9_]*),_\)\|\1\.number\(\)$"   # ObjectId number: injective because every key has generation 0
+
+
+def sort_key_verdict(code, open_paren, whole_src):
+    """the sort orders the entries of a hash map: ties of a stable sort stay in iteration order, so the key must be the map
+    key itself (injective on the entries).  Returns (ok, key text)."""
+    depth, j = 0, open_paren
+    while j < len(code):
+        if code[j] == "(": depth += 1
+        elif code[j] == ")":
+            depth -= 1
+            if depth == 0: break
+        j += 1
+    key = re.sub(r"\s+", "", code[open_paren + 1:j])
+    if any(re.match(p_, key) for p_ in KEY_OK):
+        return True, key
+    if re.match(KEY_REVIEWED, key):
+        if "ObjectId::new(self.next_object_id, 0)" in whole_src and not re.search(r"\.(?:buffered_objects|xref_positions)\s*\.insert\(\s*ObjectId::new\([^,]+,\s*[^0]", whole_src):
+            return True, key
+    return False, key
+
+
 # reviewed exemptions: (function, receiver) -> (statement shape that must still hold, other condition, reason)
 REVIEWED = {
     ("write_type0_font_from_font", "used_chars"):
@@ -271,7 +300,10 @@ def classify0(code, fn, pos, call_end):
                 return "OrderInsensitive", "collected into a hash container"
             nxt = re.match(r"\s*;\s*(?:[a-z_][a-z0-9_]*\s*\.\s*(?:dedup|retain)[^;]*;\s*)?%s\s*\.\s*sort(?:_unstable)?(?:_by_key|_by)?\s*\(" % re.escape(v), after)
             if nxt:
-                return "SortedBeforeUse", "`%s` sorted right after collection" % v
+                ok, key = sort_key_verdict(code, s1 + nxt.end() - 1, code)
+                if not ok:
+                    return "EmitsInIterationOrder", "`%s` is sorted by `%s`, which is not the map key itself: entries that tie keep the iteration order" % (v, key)
+                return "SortedBeforeUse", "`%s` sorted by the map key right after collection" % v
             return "EmitsInIterationOrder", "collected into `%s` without a following sort" % v
         tail = code[call_end:s1]
         if FOLD_TAIL.search(tail) or re.search(r"\.collect\s*::<\s*(?:std::collections::)?(?:HashMap|HashSet|BTreeMap|BTreeSet)", tail):
@@ -297,7 +329,12 @@ def classify0(code, fn, pos, call_end):
     if eff and all(e.strip().startswith(".push") for e in eff) and len(set(pm)) == 1:
         v = pm[0]
         rest = code[match_brace(code, k):be]
-        if re.search(r"\b%s\s*\.\s*sort(?:_unstable)?(?:_by_key|_by)?\s*\(" % re.escape(v), rest):
+        sm = re.search(r"\b%s\s*\.\s*sort(?:_unstable)?(?:_by_key|_by)?\s*\(" % re.escape(v), rest)
+        if sm:
+            base = match_brace(code, k)
+            ok, key = sort_key_verdict(code, base + sm.end() - 1, code)
+            if not ok:
+                return "EmitsInIterationOrder", "pushed onto `%s`, sorted by `%s` (not the pushed key itself)" % (v, key)
             return "SortedBeforeUse", "pushed onto `%s`, which is sorted after the loop" % v
     if EFFECT.search(body):
         return "EmitsInIterationOrder", "loop body allocates ids / writes / pushes onto a sequence: " + EFFECT.search(body).group(0).strip()
